@@ -206,6 +206,7 @@ def run(pid, meta, tier, seed, replay=None):
     inconclusive = {}
     scenarios = 0
     hard_limit = float(tp.get("budget_s", 120)) * 3 + 300
+    failed_workers = []
     for p, outpath, lf, w in procs:
         try:
             p.wait(timeout=hard_limit)
@@ -216,7 +217,9 @@ def run(pid, meta, tier, seed, replay=None):
         if not os.path.exists(outpath):
             with open(os.path.join(workdir, "worker-%d.log" % w), errors="replace") as f:
                 tail = f.read()[-3000:]
-            raise SystemExit("e2e worker %d produced no result (harness error, not a property verdict):\n%s" % (w, tail))
+            failed_workers.append((w, tail))
+            out.notes.append("worker %d produced no result (harness/environment error, not a property verdict): %s" % (w, tail.strip().split("\n")[-1][:200] if tail.strip() else ""))
+            continue
         with open(outpath) as f:
             st = json.load(f)
         if replay:
@@ -245,6 +248,8 @@ def run(pid, meta, tier, seed, replay=None):
             if v["signature"] not in seen:
                 out.add_violation(v["signature"], v["detail"], v["replay"])
         out.extra["replays_run"] = out.extra.get("replays_run", 0) + st.get("replays_run", 0)
+    if len(failed_workers) == len(procs):
+        raise SystemExit("every e2e worker failed before producing a result (harness error, not a property verdict):\n%s" % failed_workers[0][1])
     out.distinct_nontrivial = len(distinct)
     out.extra["scenarios"] = scenarios
     out.extra["labels"] = labels
